@@ -225,6 +225,8 @@ def op_auto(impl, mid, op, a):
         else:
             r = s._apply(k, o)
         return _store(impl, outs[0], r)
+    if op == 'f_copy':
+        return _store(impl, outs[0], _pycopy.copy(_h(impl, a[0])))
     if op == 'f_eq':
         return show_bool(_h(impl, a[0]) == _h(impl, a[1]))
     if op == 'f_ne':
@@ -271,7 +273,7 @@ AUTO_OPS = [
     'a_preimage', 'a_succ', 'a_contains', 'a_count', 'a_support', 'a_support_levels', 'a_pick_iter',
     'a_to_expr', 'a_incref', 'a_decref', 'a_drop', 'a_gc', 'a_reorder', 'a_configure', 'a_declare',
     'a_add_var', 'a_len', 'a_shutdown', 'a_copy_bdd_same', 'a_copy_same', 'a_copy', 'a_copy_bdd',
-    'a_copy_vars', 'f_apply', 'f_eq', 'f_ne', 'f_le', 'f_lt', 'f_low', 'f_high', 'f_level', 'f_var',
+    'a_copy_vars', 'f_apply', 'f_copy', 'f_eq', 'f_ne', 'f_le', 'f_lt', 'f_low', 'f_high', 'f_level', 'f_var',
     'f_ref', 'f_negated', 'f_int', 'f_len', 'f_support', 'f_to_expr', 'a_state']
 
 
@@ -493,7 +495,9 @@ class AHistory:
             # a second Function on the node of a live one
             h = self.pick(mid)
             r = rng.random()
-            if r < 0.5:
+            if r < 0.35:
+                self.call(mid, 'f_copy', f'h{h}', outs=[self.fresh()])
+            elif r < 0.6:
                 self.call(mid, 'a_add_int', self.live[h][1] * rng.choice([1, 1, -1]), outs=[self.fresh()])
             elif r < 0.8:
                 self.call(mid, 'a_copy_bdd', f'h{h}', mid, outs=[self.fresh()])
@@ -691,41 +695,50 @@ def _build_driver():
 
 
 def _copy_probe(ctx):
-    """`copy.copy(f)` of a live Function: a second object on the node.  The property counts
-    live `Function` objects, so the count must go up by one — or the copy must be refused."""
+    """`copy.copy(f)` of a live Function is a second Function on the node: the count goes up
+    by one, and when the copy dies the original still holds its node."""
     ab = _auto.BDD()
     ab.declare('x', 'y')
     f = ab.var('x') & ab.var('y')
     b = ab._bdd
     before = dict(b._ref)
+    problems = []
     try:
         g = _pycopy.copy(f)
-    except Exception:  # noqa: BLE001
-        return
-    problems = []
-    if g is not f and b._ref[abs(f.node)] != before[abs(f.node)] + 1:
-        problems.append(f'copy.copy(f) made a second Function on node {f.node} without taking a reference '
-                        f'(count {b._ref[abs(f.node)]}, live Functions 2)')
+    except Exception as e:  # noqa: BLE001
+        g = None
+        problems.append(f'copy.copy(f) raises {e!r}')
+    if g is not None:
+        if g is f or g.node != f.node:
+            problems.append('copy.copy(f) is not a new Function on the same node')
+        elif b._ref[abs(f.node)] != before[abs(f.node)] + 1:
+            problems.append(f'copy.copy(f) made a second Function on node {f.node} without taking a reference '
+                            f'(count {b._ref[abs(f.node)]}, live Functions 2)')
     QUIET[0] += 1
-    del g
-    ab.collect_garbage()
-    if abs(f.node) not in b._succ:
-        problems.append('after the copy died and a collection, the node of the still live original is gone')
-    ctx.evaluations += 1
-    ctx.case('copy.copy probe')
-    if problems:
-        ctx.violation('autoref: a shallow copy of a Function releases a reference it never took', dict(
-            problems=problems,
-            repro="ab=autoref.BDD(); ab.declare('x','y'); f=ab.var('x')&ab.var('y'); g=copy.copy(f); del g; "
-                  "ab.collect_garbage(); f.support  # KeyError",
-            tags=dict(call='copy.copy')))
-    # neutralise
-    b._ref = {1: 0}
-    b._succ = {1: b._succ[1]}
-    b._pred = {}
-    del f
-    gc.collect()
-    QUIET[0] -= 1
+    try:
+        del g
+        ab.collect_garbage()
+        if abs(f.node) not in b._succ:
+            problems.append('after the copy died and a collection, the node of the still live original is gone')
+        elif b._ref[abs(f.node)] != before[abs(f.node)]:
+            problems.append(f'after the copy died the count of node {f.node} is {b._ref[abs(f.node)]}, '
+                            f'was {before[abs(f.node)]}')
+        ctx.evaluations += 1
+        ctx.case('copy.copy probe')
+        if problems:
+            ctx.violation('autoref: a shallow copy of a Function does not hold its own reference', dict(
+                problems=problems,
+                repro="ab=autoref.BDD(); ab.declare('x','y'); f=ab.var('x')&ab.var('y'); g=copy.copy(f); del g; "
+                      "ab.collect_garbage(); f.support  # KeyError",
+                tags=dict(call='copy.copy')))
+            # neutralise
+            b._ref = {1: 0}
+            b._succ = {1: b._succ[1]}
+            b._pred = {}
+        del f
+        gc.collect()
+    finally:
+        QUIET[0] -= 1
 
 
 def check_C08(ctx):
@@ -805,7 +818,8 @@ def check_C08(ctx):
 REGISTRY = {
     'C08': (check_C08,
             'random histories over dd.autoref (constructions, operators incl. <= < == !=, succ/low/high, '
-            'second Functions on a node, drops in random order, collections, sifting and given orders, '
+            'second Functions on a node (copy.copy = Function.__copy__, _add_int, copy_bdd; copy.deepcopy and '
+            'pickling of Functions are out of scope), drops in random order, collections, sifting and given orders, '
             'dynamic reordering off/on with lowered threshold, two managers, rejected calls); after every '
             'step: truth table of every live Function, count = in-edges + live Functions (+1 terminal), '
             'registry vs real objects, no exception inside __del__; at the end: drop all, collect, shutdown '
